@@ -236,10 +236,6 @@ func (p *c20) check(rec *core.Recorder, e *twig.Engine, lk c20Lookup, phase stri
 	} else {
 		want, assert = refAttr(lk.item.val, lk.name)
 	}
-	if !assert {
-		rec.Count("not-asserted", 1)
-		return true
-	}
 	var out string
 	var err error
 	panicked, site, val, stack := core.Guard(func() {
@@ -269,6 +265,11 @@ func (p *c20) check(rec *core.Recorder, e *twig.Engine, lk c20Lookup, phase stri
 	if panicked {
 		rec.Violate("panic", "panic@"+site, "engine panicked: "+val, cs, stack)
 		return false
+	}
+	if !assert {
+		// the lookup is performed (it is part of the history and may populate the cache) but its result is not judged
+		rec.Count("not-asserted", 1)
+		return true
 	}
 	if err != nil || out != "["+want+"]" {
 		rec.Violate("reflection-reference", fmt.Sprintf("wrong-member:%s.%s", lk.item.label, lk.name),
